@@ -216,7 +216,10 @@ class Ctx:
         os.makedirs(EVIDENCE_DIR, exist_ok=True)
         with open(os.path.join(EVIDENCE_DIR, self.pid + '.json'), 'w') as f:
             json.dump(ev, f, indent=1, default=str)
-        shutil.rmtree(self.work, ignore_errors=True)
+        if not os.environ.get('VERIF_KEEP_WORK'):
+            shutil.rmtree(self.work, ignore_errors=True)
+        else:
+            print('work dir kept:', self.work)
         print('%s %s: states=%d transitions=%d traces=%d evaluations=%d nontrivial=%d violations=%d known=%d wall=%.1fs' % (
             self.pid, self.tier, self.states, self.transitions, self.traces, self.evaluations,
             cov['distinct_nontrivial'], len(self.violations), len(self.known_hits), time.time() - self.t0))
